@@ -1031,6 +1031,37 @@ func init() {
 				r2 := env.valW.Handle(context.TODO(), req2)
 				if r2.Allowed != strings.HasPrefix(impl, "admitted") {
 					wh = "WEBHOOK=" + map[bool]string{true: "allowed", false: "denied"}[r2.Allowed] + "-but-validator-said-otherwise"
+					return
+				}
+				if !r2.Allowed {
+					return
+				}
+				// the admitted object is stored; the user re-applies the original manifest (`kubectl replace`): an UPDATE whose
+				// object is as undefaulted as the CREATE was.  It must come out of the defaulter as the same defaulted object
+				// and be admitted again (nothing but defaulted fields differs from the stored spec).
+				req3 := admission.Request{AdmissionRequest: admissionv1.AdmissionRequest{Namespace: "ns", Operation: admissionv1.Update, Object: runtime.RawExtension{Raw: raw0}, OldObject: runtime.RawExtension{Raw: raw1}}}
+				r3 := env.defW.Handle(context.TODO(), req3)
+				if !r3.Allowed {
+					wh = "WEBHOOK=defaulter-denied-update"
+					return
+				}
+				raw3, err := applyPatch(raw0, r3)
+				if err != nil {
+					wh = "WEBHOOK=update-patch-does-not-apply"
+					return
+				}
+				got3 := &experimentsv1beta1.Experiment{}
+				if err := json.Unmarshal(raw3, got3); err != nil {
+					wh = "WEBHOOK=patched-update-unreadable"
+					return
+				}
+				if g3, _ := json.Marshal(got3); string(g3) != string(dj) {
+					wh = "WEBHOOK=update-not-defaulted-like-create"
+					return
+				}
+				req4 := admission.Request{AdmissionRequest: admissionv1.AdmissionRequest{Namespace: "ns", Operation: admissionv1.Update, Object: runtime.RawExtension{Raw: raw3}, OldObject: runtime.RawExtension{Raw: raw1}}}
+				if r4 := env.valW.Handle(context.TODO(), req4); !r4.Allowed {
+					wh = "WEBHOOK=reapplied-manifest-denied"
 				}
 			}()
 			if wh != "" {
